@@ -75,3 +75,45 @@ fn h_ni_par() {
         j += 1;
     }
 }
+
+// Quick plumbing form of h_ni_par: AESENC / AESDEC replaced by a register-local stand-in (block xor key rotated by one
+// byte), so lane j of the 8-block forms must combine blocks[j] with keys[j].
+unsafe fn st(a: __m128i, k: __m128i) -> __m128i {
+    let (a, k) = (x86_models::to_b(a), x86_models::to_b(k));
+    let mut o = [0u8; 16];
+    let mut i = 0;
+    while i < 16 {
+        o[i] = a[(i + 1) % 16] ^ k[i];
+        i += 1;
+    }
+    x86_models::from_b(o)
+}
+// @ob name=h_ni_par_lanes props=C17,C04,C20 cfg=hazmat fn=aes::ni::hazmat::cipher_round_par,aes::ni::hazmat::equiv_inv_cipher_round_par,aes::ni::hazmat::load,aes::ni::hazmat::store uses=h_ni_single timeout=600
+#[kani::proof]
+#[kani::stub(core::arch::x86_64::_mm_aesenc_si128, st)]
+#[kani::stub(core::arch::x86_64::_mm_aesdec_si128, st)]
+#[kani::unwind(20)]
+fn h_ni_par_lanes() {
+    let b: [[u8; 16]; 8] = kani::any();
+    let k: [[u8; 16]; 8] = kani::any();
+    let mut blocks = Block8::default();
+    let mut keys = Block8::default();
+    let mut i = 0;
+    while i < 8 {
+        blocks[i] = Array(b[i]);
+        keys[i] = Array(k[i]);
+        i += 1;
+    }
+    let mut enc = blocks.clone();
+    unsafe { cipher_round_par(&mut enc, &keys); }
+    let mut dec = blocks.clone();
+    unsafe { equiv_inv_cipher_round_par(&mut dec, &keys); }
+    let mut j = 0;
+    while j < 8 {
+        let want = x86_models::to_b(unsafe { st(x86_models::from_b(b[j]), x86_models::from_b(k[j])) });
+        assert!(eq(&enc[j].0, &want));
+        assert!(eq(&dec[j].0, &want));
+        assert!(eq(&keys[j].0, &k[j]));
+        j += 1;
+    }
+}
